@@ -14,8 +14,10 @@ def perm(h, c):
     return list(range(S[H[h]]))
 
 
+files = {}
 o = []
-w = o.append
+w = lambda x: o.append(x)
+HEADER_MARK = "@@HEADER_END@@"
 w('''/- C28 (part 2) — orthotropic axes conventions and reduced hypotheses, on the definitions traced (T1) from the real
    templates by harness/C28/trace.cxx:  sfe_* = convertStressFreeExpansionStrain<H,C>, hill_* = computeHillTensor<H,C>,
    stiff_*_{U,A}_* = computeOrthotropicStiffnessTensor<H,{UNALTERED,ALTERED},C>, j2o*/j3o* = computeJ2O/computeJ3O and
@@ -39,6 +41,16 @@ set_option linter.unusedSectionVars false
 
 variable {K : Type} [Field K] (c c3 : K) (fn : Fns K)
 ''')
+header = list(o)
+
+
+def start(name):
+    global o
+    o = [h.replace("namespace TfelVerif.C28.PropsAxes", "namespace TfelVerif.C28." + name) for h in header]
+    files[name] = o
+
+
+start("PropsAxes")
 
 # ---------------------------------------------------------------- stress-free expansion
 w("/-! ## convertStressFreeExpansionStrain: 3D-frame diagonal tensor -> frame of the hypothesis -/\n")
@@ -94,6 +106,7 @@ for h in PLANE:
 
 # ---------------------------------------------------------------- stiffness
 SA = "E1 E2 E3 nu12 nu23 nu13 G12 G23 G13"
+start("PropsStiff3D")
 w("/-! ## orthotropic stiffness tensors -/\n")
 C3 = lambda i, j: "stiff_TRI_U_DEFAULT_r%d_%d c c3 fn %s" % (i, j, SA)
 Sm = [["1 / E1", "-nu12 / E1", "-nu13 / E1"], ["-nu12 / E1", "1 / E2", "-nu23 / E2"], ["-nu13 / E1", "-nu23 / E2", "1 / E3"]]
@@ -110,9 +123,12 @@ theorem stiff_TRI_inverse_of_compliance (%s : K)
     %s := by
   stiff3d hd
 """ % (SA, SA, " ∧\n    ".join(eqs)))
-for h in H:
-    for a in ("U", "A"):
-        for c in ("DEFAULT", "PIPE"):
+for a in ("U", "A"):
+  for c in ("DEFAULT", "PIPE"):
+    start("PropsStiff" + a + c.capitalize())
+    w("/-! ## orthotropic stiffness tensors, %s, %s convention -/\n" % ("UNALTERED" if a == "U" else "ALTERED", c))
+    for h in H:
+        if True:
             if h == "TRI" and a == "U" and c == "DEFAULT":
                 continue
             n = S[H[h]]
@@ -153,6 +169,33 @@ for h in H:
             w("/-- %s -/\ntheorem stiff_%s_%s_%s (%s : K)%s :\n    %s := by\n  %s\n" % (doc, h, a, c, SA, hyp, conj, tac))
 
 # ---------------------------------------------------------------- plasticity
+# ---------------------------------------------------------------- PLATE stiffness (traced by a separate program)
+start("PropsPlate")
+o[:] = [h.replace("import TfelVerif.C28.Gen\n", "import TfelVerif.C28.Gen\nimport TfelVerif.C28.GenPlate\n")
+          .replace("open TfelVerif TfelVerif.C28 TfelVerif.C28.Gen", "open TfelVerif TfelVerif.C28 TfelVerif.C28.Gen TfelVerif.C28.GenPlate") for h in o]
+w("/-! ## orthotropic stiffness tensors, PLATE convention (same axes in 3D and in the plane hypotheses) -/\n")
+for h in ("PS", "PE", "GPE", "TRI"):
+    for a in ("U", "A"):
+        n = S[H[h]]
+        T = lambda x, y: "stiff_TRI_U_DEFAULT_r%d_%d c c3 fn %s" % (x, y, SA)
+        parts = []
+        for i in range(n):
+            for j in range(n):
+                lhs = "stiff_%s_%s_PLATE_r%d_%d c c3 fn %s" % (h, a, i, j, SA)
+                if a == "A" and h == "PS":
+                    if i < 2 and j < 2:
+                        parts.append("%s = %s - %s * (%s / %s)" % (lhs, T(i, j), T(i, 2), T(2, j), T(2, 2)))
+                    elif i == 3 and j == 3:
+                        parts.append("%s = %s" % (lhs, T(3, 3)))
+                    else:
+                        parts.append("%s = 0" % lhs)
+                else:
+                    parts.append("%s = %s" % (lhs, T(i, j)))
+        w("/-- %s, %s, PLATE: the 3D stiffness tensor read through the identity%s -/\ntheorem stiff_%s_%s_PLATE (%s : K) :\n    %s := by\n  axes_eq\n" %
+          (FULL[h], "UNALTERED" if a == "U" else "ALTERED", " (plane stress: condensed on the third axis)" if (a == "A" and h == "PS") else "",
+           h, a, SA, " ∧\n    ".join(parts)))
+
+start("PropsPlasticity")
 w("/-! ## orthotropic plasticity helpers: the 1D / 2D overloads are the 3D ones with vanishing out-of-plane shear -/\n")
 A6 = "a1 a2 a3 a4 a5 a6"
 B11 = " ".join("b%d" % i for i in range(1, 12))
@@ -170,6 +213,7 @@ for f, co in (("j2o", A6), ("j3o", B11)):
                                for i in range(n) for j in range(n))
         w("theorem %s_d2_N%d_is_3D (%s %s : K) :\n    %s := by\n  axes_eq\n" % (f, d, sv, co, conj))
 
-w("end TfelVerif.C28.PropsAxes")
-open("/verif/lean/TfelVerif/C28/PropsAxes.lean", "w").write("\n".join(o) + "\n")
-print(len(o))
+for name, lines in files.items():
+    lines.append("end TfelVerif.C28." + name)
+    open("/verif/lean/TfelVerif/C28/%s.lean" % name, "w").write("\n".join(lines) + "\n")
+    print(name, sum(1 for l in lines if l.startswith("theorem")))
